@@ -3,6 +3,7 @@ from __future__ import annotations
 
 import ast
 
+from ..cfg import cfg_of
 from ..dataflow import derives
 from ..loader import dotted, walk_no_nested
 from ..tables import op_classes
@@ -91,6 +92,46 @@ def keys(ctx, rule="C14.keys"):
             "['shots']" in tr and "['cutoff_dim']" in tr
         ctx.ob(rule, br.site, ok, "" if ok else "Blackbird reader/writer disagree on target name / shots / cutoff_dim",
                role="bb-options", line=br.node.lineno)
+    # independent options are transferred independently: the transfer of one option is not conditional on another option
+    from .common_guard import path_facts
+    for rel_ in ("io/blackbird_io.py", "io/xir_io.py"):
+        for rf in ctx.tree.module(rel_).functions.values():
+            if not rf.name.startswith("from_"):
+                continue
+            cfg = cfg_of(rf.node)
+            for st in walk_no_nested(rf.node):
+                if not (isinstance(st, ast.Assign) and isinstance(st.targets[0], ast.Subscript) and
+                        isinstance(st.targets[0].slice, ast.Constant) and
+                        (dotted(st.targets[0].value) or "").endswith(("run_options", "backend_options"))):
+                    continue
+                k = st.targets[0].slice.value
+                ids = cfg.find(st)
+                if not ids:
+                    continue
+                other = set()
+                for a, v in path_facts(cfg, ids[0]):
+                    other |= {x.value for x in ast.walk(a) if isinstance(x, ast.Constant) and isinstance(x.value, str)
+                              and x.value != k and x.value in ("shots", "cutoff_dim", "_shots_", "_cutoff_dim_", "options")
+                              and x.value.strip("_") != str(k).strip("_")}
+                other.discard("options")
+                ctx.ob(rule, rf.site, not other, "" if not other else f"option '{k}' is only transferred depending on option(s) "
+                       f"{sorted(other)} (elif instead of if): a program carrying both loses one of them on reload",
+                       role=f"independent:{k}", line=st.lineno)
+    # loop-parameter arrays p0, p1, ..., p10 correspond to positions: they must not be put in STRING order
+    for rel_ in ("io/blackbird_io.py", "io/xir_io.py"):
+        for rf in ctx.tree.module(rel_).functions.values():
+            for c in walk_no_nested(rf.node):
+                if isinstance(c, ast.Call) and dotted(c.func) == "sorted" and c.args and not any(k_.arg == "key" for k_ in c.keywords):
+                    # is the sorted sequence filtered / consumed by is_ptype names?
+                    par = getattr(c, "parent", None)
+                    scope = par
+                    while scope is not None and not isinstance(scope, (ast.ListComp, ast.GeneratorExp, ast.DictComp, ast.For, ast.stmt)):
+                        scope = getattr(scope, "parent", None)
+                    uses_p = scope is not None and any(isinstance(x, ast.Call) and dotted(x.func) == "is_ptype" for x in ast.walk(scope))
+                    if uses_p:
+                        ctx.ob(rule, rf.site, False, f"`{ast.unparse(c)[:50]}` orders the loop-parameter names as strings (p10 < p2): "
+                               "with more than ten arrays every parameter from p2 on is bound to another parameter's array",
+                               role="ptype-string-sort", line=c.lineno)
     ctx.floor(rule, 10)
 
 
